@@ -77,6 +77,20 @@ def make_streams(R, tier, framed_only=False):
     return out
 
 
+def all_sizes_stream(seed):
+    """well-framed input in which every payload size 0..10000 occurs once (link 5), each followed by an RDH-only packet (link 6)"""
+    import random as _r
+    rr = _r.Random(seed); blob = bytes(rr.getrandbits(8) for _ in range(4096)) * 3
+    out = bytearray()
+    sizes = list(range(0, 10001)); rr.shuffle(sizes)
+    for i, n in enumerate(sizes):
+        f = dict(G.RDH_DEFAULT); f.update(link=5, fee=0x1005, orbit=100 + i, page=0, stop=0, size=64 + n, off=64 + n, pkt=i & 0xFF)
+        out += G.rdh_bytes(f); k = rr.randrange(0, 2000); out += blob[k:k + n]
+        f = dict(G.RDH_DEFAULT); f.update(link=6, fee=0x2006, orbit=100 + i, page=0, stop=0, size=64, off=64, pkt=i & 0xFF)
+        out += G.rdh_bytes(f)
+    return bytes(out)
+
+
 def pick_filters(R, pk):
     flts = [None]
     if pk:
@@ -186,6 +200,23 @@ def run_c03(ck, ctx):
         if r.exit != 0 or not offs_ok:
             ck.violation('view_rdh', {'what': 'long input: `view rdh` does not visit every RDH of the chain', 'packets': npk, 'rows': len(rows), 'via': via, 'exit': r.exit,
                                       'replay': f'{npk} RDH-only packets (offset_to_next = memory_size = 64), 3 links; fastpasta view rdh -d'})
+    # EVERY payload size the scanner accepts (0..10000 bytes), each once, on link 5, alternating with RDH-only packets of link 6:
+    # plain walk (payloads skipped by `view rdh`), and under a filter that skips link 5 (seek on a file, read-and-discard on a pipe)
+    data = all_sizes_stream(ctx['seed'])
+    walk = chain_walk(data)
+    for via in ('file', 'pipe'):
+        for flt in (None, ('link', 6), ('link', 5)):
+            r = L.run_cli(['view', 'rdh', '-d'] + flt_args(flt), data, via=via, stats=False, timeout=300)
+            rows = parse_view_rdh(r.stdout)
+            exp = [o for o, h, p in walk if matches(flt, h)]
+            ck.case(('all_sizes', via, flt)); ck.count('all_sizes_' + via)
+            if r.exit != 0 or [o for o, _ in rows] != exp:
+                firstbad = next((k for k, (a, b) in enumerate(zip([o for o, _ in rows], exp)) if a != b), min(len(rows), len(exp)))
+                ck.violation('view_rdh', {'what': 'payload-size sweep: `view rdh` does not visit exactly the chained RDHs', 'via': via, 'filter': flt, 'exit': r.exit,
+                                          'rows': len(rows), 'expected_rows': len(exp), 'first_difference_at_row': firstbad,
+                                          'payload_size_before_first_difference': None if firstbad == 0 or firstbad > len(exp) else len(walk[[o for o, _, _ in walk].index(exp[firstbad - 1])][2]) if firstbad - 1 < len(exp) else None,
+                                          'stderr': r.stderr[-300:],
+                                          'replay': 'tools/checks_scan.py all_sizes_stream(seed): packets of link 5 with payload sizes 0..10000 (each once), each followed by an RDH-only packet of link 6'})
     r = L.run_cli(['check', 'sanity'], hb, via='pipe_bursty', timeout=300)
     ck.case(('cli_long', 'check_sanity'))
     if r.stats is None or r.stats['rdh_stats']['rdhs_seen'] != npk:
@@ -239,6 +270,21 @@ def run_c08(ck, ctx):
                                     'out_len': None if out is None else len(out), 'expected_len': len(exp)})
         if dest == 'file' and via == 'file':
             reqs.append(f'run cmd=none filter={flt_token(flt)} data={G.hexs(data)}'); rmeta.append(exp)
+    # every payload size 0..10000 through the writer (also RDH-only packets), file and pipe, to a file
+    data = all_sizes_stream(ctx['seed']); walk = chain_walk(data)
+    for via in ('file', 'pipe'):
+        for l in (5, 6):
+            wd = os.path.join(L.CACHE, 'tmp', f'c08_all_{os.getpid()}_{via}_{l}'); os.makedirs(wd, exist_ok=True)
+            outp = os.path.join(wd, 'out.raw')
+            r = L.run_cli(['-f', str(l), '-o', outp], data, via=via, stats=False, workdir=wd, timeout=300)
+            out = open(outp, 'rb').read() if os.path.exists(outp) else None
+            import shutil; shutil.rmtree(wd, ignore_errors=True)
+            exp = b''.join(h + p for o, h, p in walk if h[12] == l)
+            ck.case(('all_sizes', via, l)); ck.count('all_sizes_' + via)
+            if r.exit != 0 or out != exp:
+                ck.violation('writer', {'what': 'payload-size sweep: filtered output is not the concatenation of exactly the matching packets', 'via': via, 'link': l,
+                                        'exit': r.exit, 'out_len': None if out is None else len(out), 'expected_len': len(exp), 'stderr': r.stderr[-300:],
+                                        'replay': 'tools/checks_scan.py all_sizes_stream(seed); fastpasta -f %d -o out.raw' % l})
     # model correspondence on the output bytes
     model = L.run_driver(reqs)
     dis = []
